@@ -326,6 +326,8 @@ def run(ctx):
     if eg is not None:
         eb = ExprBuilder(eg)
         wn = cm.local_calls(eg, p, exact="vocoder::excitation::Excitation::white_noise")
+        if not wn and p.body("vocoder::excitation::Excitation::white_noise") is None:
+            wn = cm.local_calls(eg, p, exact="vocoder::excitation::Random::nrandom")
         unv = cm.local_calls(eg, p, exact="vocoder::excitation::Excitation::unvoiced_frame")
         okn = 0
         for bb, t in unv + [c for c in wn]:
